@@ -20,6 +20,7 @@ import functools
 import inspect
 import types
 import contextlib
+from sigtools import modifiers
 
 FLAG = True
 OTHER_A = ()
@@ -38,6 +39,10 @@ def SINK(*args, **kwargs):
 
 def IDENT(value):
     return value
+
+
+class PARTIAL_SUBCLASS(functools.partial):
+    """A partial object of a subclass of functools.partial."""
 
 
 def APPLY(fn, *args, **kwargs):
